@@ -155,7 +155,33 @@ class Interp:
         for stmt in tree.body:
             self.exec_stmt(stmt, env, p)
         m.loaded = True
+        for k, v in m.globals.items():
+            if isinstance(v, (SeqV, SetV, DictV)) or (isinstance(v, ObjV) and not isinstance(v, ExcV)):
+                self.mark_module_owned(v, f'{name}.{k}')
         return m
+
+    def mark_module_owned(self, v, label, depth=0):
+        if depth > 3 or getattr(v, 'module_owned', None):
+            return
+        try:
+            v.module_owned = label
+        except Exception:
+            return
+        if isinstance(v, SeqV):
+            v.frozen = True
+            for b in v.term.blocks:
+                if isinstance(b, LitB):
+                    for x in b.items:
+                        if isinstance(x, (SeqV, SetV, DictV, ObjV)):
+                            self.mark_module_owned(x, label, depth + 1)
+        elif isinstance(v, DictV) and v.dom is None:
+            for x in v.concrete.values():
+                if isinstance(x, (SeqV, SetV, DictV, ObjV)):
+                    self.mark_module_owned(x, label, depth + 1)
+        elif isinstance(v, ObjV):
+            for x in v.fields.values():
+                if isinstance(x, (SeqV, SetV, DictV, ObjV)):
+                    self.mark_module_owned(x, label, depth + 1)
 
     def find_module(self, name):
         rel = name.replace('.', '/')
@@ -890,6 +916,10 @@ class Interp:
         raise FrameViolation(what, self.call_stack)
 
     def journal_write(self, path, cell, what):
+        if getattr(cell, 'module_owned', None):
+            self.frame_violations.append((f'write to module-level state {cell.module_owned}', list(self.call_stack)))
+            raise FrameViolation(f'{what[0] if isinstance(what, tuple) else what} on module-level object '
+                                 f'{cell.module_owned}', self.call_stack)
         j = path.journal
         if j is not None and cell.oid < j.floor:
             j.entries.append((what, cell))
